@@ -2,6 +2,7 @@ mod cluster;
 mod conc;
 mod http;
 mod ids;
+mod net;
 mod node;
 mod oplog;
 mod pending;
